@@ -80,7 +80,7 @@ fn main() {
     "profile content (counters, timings) is not judged".into(),
   ];
   let quick = ctx.quick();
-  let n = ctx.n(120, 4000);
+  let n = ctx.n(400, 10000);
   ctx.run_cases("quads", n, |rng: &mut Rng, l: &mut Local, scratch| {
     let n_docs = rng.urange(8, 40);
     let corpus = paging::gen_corpus_with(rng, n_docs, 4, false);
@@ -272,7 +272,7 @@ fn main() {
             } else if widened {
               "explain-ranks-all-matches-per-segment:collapse-or-rescore-see-more-than-limit+1-candidates".to_string()
             } else {
-              format!("{what}-differ-with-{}:{ctxs}", if e { "explain" } else { "profile" })
+              format!("{what}-differ-with-{}:{ctxs}", flag)
             };
             l.fail(sig, msg, case(json!({"difference": what, "unflagged": view_json(v0), "flagged": view_json(&vv),
               "total_groups": [r0.total_groups, r.total_groups], "next_cursor": [r0.next_cursor, r.next_cursor]})));
@@ -281,7 +281,7 @@ fn main() {
         if exec.0 == "bm25" {
           if r0.total_hits_estimate != r.total_hits_estimate {
             l.fail(
-              format!("total-differs-with-{}:bm25:{ctxs}", if e { "explain" } else { "profile" }),
+              format!("total-differs-with-{}:bm25:{ctxs}", flag),
               format!("total_hits_estimate {} vs {} under bm25", r0.total_hits_estimate, r.total_hits_estimate),
               case(json!(null)),
             );
@@ -289,17 +289,17 @@ fn main() {
         } else if let Some(t) = truth {
           if r.total_hits_estimate > t && r0.total_hits_estimate <= t {
             l.fail(
-              format!("total-exceeds-true-count-only-with-{}:{ctxs}", if e { "explain" } else { "profile" }),
+              format!("total-exceeds-true-count-only-with-{}:{ctxs}", flag),
               format!("total_hits_estimate {} > true match count {t} (unflagged: {})", r.total_hits_estimate, r0.total_hits_estimate),
               case(json!(null)),
             );
           }
         }
         if let Some(d) = paging::json_diff(&paging::aggs_json(r0), &paging::aggs_json(&r), TOL, "$") {
-          l.fail(format!("aggregations-differ-with-{}:{ctxs}", if e { "explain" } else { "profile" }), format!("aggregations differ: {d}"), case(json!({"first_difference": d})));
+          l.fail(format!("aggregations-differ-with-{}:{ctxs}", flag), format!("aggregations differ: {d}"), case(json!({"first_difference": d})));
         }
         if let Some(d) = paging::json_diff(&paging::suggest_json(r0), &paging::suggest_json(&r), TOL, "$") {
-          l.fail(format!("suggest-differs-with-{}:{ctxs}", if e { "explain" } else { "profile" }), format!("suggest differs: {d}"), case(json!({"first_difference": d})));
+          l.fail(format!("suggest-differs-with-{}:{ctxs}", flag), format!("suggest differs: {d}"), case(json!({"first_difference": d})));
         }
         if e {
           for h in r.hits.iter() {
